@@ -1293,7 +1293,10 @@ macro_rules! skip_iterator_impl {
             #[cfg_attr(not(feature = "compact"), inline(always))]
             #[allow(clippy::assertions_on_constants)] // reason="ensuring safety invariants are valid"
             pub fn take_n(&mut self, n: usize) -> Option<Bytes<'a, FORMAT>> {
-                if Self::IS_CONTIGUOUS {
+                // NOTE: the buffer must be contiguous as well: the returned bytes
+                // start with fresh digit counts, which only `current_count` of a
+                // contiguous buffer (the cursor) does not depend on.
+                if Self::IS_CONTIGUOUS && <Bytes<'a, FORMAT> as Iter<'a>>::IS_CONTIGUOUS {
                     let end = self.byte.slc.len().min(n + self.cursor());
                     // NOTE: The compiler should be able to optimize this out.
                     let slc: &[u8] = &self.byte.slc[..end];
